@@ -300,16 +300,23 @@ impl<'arena, 'input: 'arena> Lexer<'arena, 'input> {
                     b'n' => buffer.push('\n'),
                     b't' => buffer.push('\t'),
                     _ => {
+                        // The escaped character may be longer than one byte.
+                        // SAFETY: pos + 1 follows the one-byte backslash, a character boundary
+                        let rest = unsafe { str::from_utf8_unchecked(&self.src[pos + 1..self.len]) };
+                        let ch = rest.chars().next().unwrap_or(esc as char);
+                        let end = pos + 1 + ch.len_utf8();
                         self.emit_error(
-                            Range::from(pos..pos + 2),
+                            Range::from(pos..end),
                             LexError::InvalidStringEscape,
                             vec![Label {
-                                span: Range::from(pos..pos + 2),
+                                span: Range::from(pos..end),
                                 message: ArenaCow::Borrowed("I no sabi dis escape character"),
                             }],
                         );
                         // Append the invalid escape character
-                        buffer.push(esc as char);
+                        buffer.push(ch);
+                        self.pos = end;
+                        continue;
                     }
                 }
                 self.pos = pos + 2;
@@ -391,7 +398,12 @@ impl<'arena, 'input: 'arena> Lexer<'arena, 'input> {
                         message: ArenaCow::Borrowed("Dis number no get digit after `.`"),
                     }],
                 );
-                self.pos += 1;
+                // Skip the offending character: a whole one, and never past the end.
+                if self.pos < len {
+                    // SAFETY: self.pos sits on a character boundary of the original &str
+                    let rest = unsafe { str::from_utf8_unchecked(&self.src[self.pos..len]) };
+                    self.pos += rest.chars().next().map_or(1, char::len_utf8);
+                }
                 return self.next_token().token;
             }
             while self.pos < len && self.src[self.pos].is_ascii_digit() {
